@@ -282,6 +282,9 @@ func c16Case(u *U, v cty.Value, ct *TS) {
 	desc := func() string { return fmt.Sprintf("value %s against constraint %s", goStr(v), ct.Canon()) }
 	shape := shapeOf(v) + " @ " + ct.Canon()
 	b, v2, stage, err, pan := msgpackRoundTrip(v, ct.Build())
+	if b != nil && pan == "" {
+		checkRetained(u, "msgpack.marshal", b, goStr(v))
+	}
 	if pan != "" {
 		u.Violation("msgpack."+stage+"-panics", shape, fmt.Sprintf("%s of %s panicked: %s", stage, desc(), firstLineOf(pan)))
 		return
